@@ -2,7 +2,7 @@
 import random
 import time
 
-from . import common, e1, kani_runner
+from . import common, e1, kani_runner, e3_extras
 from .gen_cmp import Field, TypeSpec, Variant
 
 PID = "C08"
@@ -149,8 +149,10 @@ def run(tier):
             continue
         seen.add(k)
         progs.append(build("p%05d" % len(progs), t, what, tr, fn, code, entry, extra))
+    out = common.Outcome(PID)
+    extra = e3_extras.summary(e3_extras.c08_tables(out))
     return e1.finish(
-        PID, tier, progs, t0,
+        PID, tier, progs, t0, outcome=out, extra=extra,
         rule="one Kani harness per (operator trait, struct shape): all payloads of both operands symbolic; every owned/reference form of the trait is "
              "called in the harness; non-trivial = at least one field; distinct by trait|shape|entry",
         bounds="10 binary + 10 assign + Neg/Not; unit/tuple/named structs with 0..4 fields of W (non-commutative, call-recording) or generic A:=W; trace <= 4 events",
